@@ -381,6 +381,67 @@ pub fn run(prop: &'static str, tier: &str) -> i32 {
         all.merge(a);
     }
 
+    // phase 4f: keys loaded from their hex text (`Key::<N>::try_from(&str)`, the documented way to bring key
+    // material in) in lower case, upper case and mixed case: the key object must be the key, on the issuing side
+    // (hex-loaded key issues, raw-bytes key opens) and on the accepting side (the other way round)
+    {
+        let units: Vec<(Proto, Layer)> = protos.iter().filter(|p| **p != Proto::V1P).flat_map(|p| Layer::ALL.iter().map(move |l| (*p, *l))).collect();
+        let accs = par_units(&units, |(p, l)| {
+            let mut acc = Acc::default();
+            let al = full_alphabet(*p, true);
+            let seed = if p.is_local() { Some(al.seeds[2].as_slice()) } else { None };
+            for k in domains::key_pool(*p).iter() {
+                let spell = |bytes: &[u8], how: usize| -> String {
+                    let h = crate::b64::hex(bytes);
+                    match how {
+                        0 => h,
+                        1 => h.to_uppercase(),
+                        _ => h.chars().enumerate().map(|(i, c)| if i % 3 == 0 { c.to_ascii_uppercase() } else { c }).collect(),
+                    }
+                };
+                for how in 0..3 {
+                    let sk = crate::adapter::key_bytes_via_hex(k.sk.len(), &spell(&k.sk, how));
+                    let pk = crate::adapter::key_bytes_via_hex(k.pk.len(), &spell(&k.pk, how));
+                    acc.executions += 1;
+                    acc.choice_points += 1;
+                    acc.impl_calls += 4;
+                    let msg = "hex-loaded key";
+                    let mut problem: Option<String> = None;
+                    match (&sk, &pk) {
+                        (Some(skb), Some(pkb)) => {
+                            for (side, s_bytes, p_bytes) in [("issuing", skb.as_slice(), k.pk.as_slice()), ("accepting", k.sk.as_slice(), pkb.as_slice())] {
+                                let t = crate::adapter::issue(*p, *l, s_bytes, seed, msg, &[], None, None);
+                                let ok = match &t {
+                                    Out::Ok(t) => match crate::adapter::present(*p, *l, p_bytes, t, None, None).0 {
+                                        Out::Ok(Opened::Msg(m)) => m == msg,
+                                        Out::Ok(Opened::Json(v, _)) => v["data"] == json!(msg),
+                                        _ => false,
+                                    },
+                                    _ => false,
+                                };
+                                if !ok && problem.is_none() {
+                                    problem = Some(format!("key {} loaded from its {} hex text on the {} side: the round trip with the same key given as bytes on the other side fails (issue -> {})", k.label, ["lower-case", "upper-case", "mixed-case"][how], side, t.short()));
+                                }
+                            }
+                        }
+                        _ => problem = Some(format!("Key::try_from refused the {} hex text of key {}", ["lower-case", "upper-case", "mixed-case"][how], k.label)),
+                    }
+                    match problem {
+                        None => {
+                            acc.controls_ok += 1;
+                            acc.bump("hex-loaded-key:round-trip-ok");
+                        }
+                        Some(w) => acc.violate(format!("{}|{}/{}|hex-loaded-key|{}", prop, p.name(), l.name(), ["lower", "upper", "mixed"][how]), w, json!({"rotation": {"proto": p.name(), "layer": l.name(), "hex": how}})),
+                    }
+                }
+            }
+            acc
+        });
+        let a = Acc::merge_all(accs);
+        phases.push(json!({"phase": "keys loaded from hex text (lower / upper / mixed case)", "executions": a.executions}));
+        all.merge(a);
+    }
+
     // phase 5: object reuse - one builder building several tokens while being reconfigured, one parser
     // parsing several tokens while being reconfigured / handed different keys: every authentic presentation
     // must still be accepted with the original content
